@@ -64,19 +64,37 @@ void *memcpy(void *, const void *, __CPROVER_size_t);
 #define nondet_bool() ((_Bool)(rt_choice() & 1))
 #define nondet_u64() ((uint64_t)rt_choice())
 
+/* sequential (plain-mode) code reached a busy-wait hint: nobody else runs, so it would wait forever */
+#define RT_SPIN_PLAIN() do { RT_ASSERT(0, "sequential code reached a busy-wait: it would wait forever (lost link / lost wake-up)"); RT_ASSUME(0); } while (0)
+#ifndef RT_NGHOST
+#define RT_NGHOST 64
+#endif
+static uint64_t rt_ghost[RT_NGHOST];   /* harness ghost state: written/read without being a scheduling point or a buffered store */
+#ifndef RT_NBANK
+#define RT_NBANK 4
+#endif
+#ifndef RT_BANKSZ
+#define RT_BANKSZ 8
+#endif
+static uint32_t rt_gbank[RT_NBANK][RT_BANKSZ];   /* small ghost arrays that may be indexed symbolically */
+static uint8_t rt_clock;          /* logical clock for harness stamps */
+#define RT_BLOCK_PLAIN() do { if (rt_block) { rt_block = 0; RT_ASSERT(0, "sequential code blocks forever (mutex/futex/join with nobody left to release it)"); RT_ASSUME(0); } } while (0)
 #define RT_UNREACHABLE() RT_ASSERT(0, "unreachable executed")
 #define RT_ABORT(msg) RT_ASSERT(0, "library abort: " msg)
 
 /* ------------------------------------------------------------------ scheduler state */
-static unsigned rt_budget;
+static _Bool rt_solo;               /* solo turn: the running thread is never preempted */
+#define RT_YIELD() (!rt_solo && nondet_bool())
 static _Bool rt_block;
 static _Bool rt_blocked[RT_NSLOTS];
+static _Bool rt_spun[RT_NSLOTS];      /* last turn ended in a busy-wait hint */
 static _Bool rt_active[RT_NSLOTS];
 static int rt_cur;
 static uint32_t rt_errno[RT_NSLOTS];
 enum { RT_W_NONE, RT_W_MUTEX, RT_W_FUTEX, RT_W_JOIN, RT_W_USER };
 static uint8_t rt_wait_kind[RT_NSLOTS];
 static void *rt_wait_obj[RT_NSLOTS];
+static uint64_t rt_wait_val[RT_NSLOTS];
 static uint32_t rt_steps;          /* global logical clock (turn starts + primitive calls) */
 
 /* ------------------------------------------------------------------ memory model */
@@ -230,6 +248,13 @@ static uint64_t P_sys_futex(void *uaddr, uint32_t op, uint32_t val, void *timeou
 #endif
 }
 
+/* harness primitive: block until ghost cell idx holds val (models e.g. "wait for the grace period that the ghost
+ * reader sections define"; contract of synchronize_rcu where it is on the stub list) */
+static void P_rt_wait_eq(uint32_t idx, uint64_t val) {
+  if (rt_ghost[idx] != val) { rt_block = 1; rt_wait_kind[rt_cur] = RT_W_USER; rt_wait_obj[rt_cur] = (void *)(uintptr_t)idx; rt_wait_val[rt_cur] = val; return; }
+  rt_wait_kind[rt_cur] = RT_W_NONE;
+}
+
 /* can a thread parked on a blocking primitive make progress now? (deadlock detector) */
 static _Bool rt_done_slot(int t);
 static _Bool rt_can_proceed(int t) {
@@ -237,6 +262,7 @@ static _Bool rt_can_proceed(int t) {
   case RT_W_MUTEX: return *(uint32_t *)rt_wait_obj[t] == 0;
   case RT_W_FUTEX: return rt_fx_state[t] == 2;
   case RT_W_JOIN: return rt_done_slot((int)(uintptr_t)rt_wait_obj[t]);
+  case RT_W_USER: return rt_ghost[(uintptr_t)rt_wait_obj[t]] == rt_wait_val[t];
   default: return 1;
   }
 }
